@@ -29,6 +29,30 @@ DocTryInto(vs, a, T) == IF ~vs[a].ign /\ LiveTys(vs[a]) = T THEN <<"ok", LiveIdx
 FormSets == (SUBSET {"owned", "ref", "ref_mut"}) \ {{}}
 DocForms(fa) == IF fa = {} THEN {"owned"} ELSE fa          \* {} stands for "no attribute"
 
+(***************************************************************************)
+(* Extension beyond C11 (spec growth): the TEXTS of the failure paths.     *)
+(* They are documented (try_unwrap.md, the TryInto tests) and users match  *)
+(* on them in logs; the property itself only speaks about the payload, so  *)
+(* a disagreement here is reported as an extension mismatch, never as a    *)
+(* C11 verdict.  Names are given as a sequence of [id, fn] records: the    *)
+(* variant's identifier as written and its accessor stem (snake case).     *)
+(***************************************************************************)
+SuffixOf(form) == CASE form = "owned" -> "" [] form = "ref" -> "_ref" [] form = "ref_mut" -> "_mut"
+\* unwrap_x{suffix}() on a value of variant a # x panics with:
+DocUnwrapPanic(enum, names, a, x, form) ==
+    "called `" \o enum \o "::unwrap_" \o names[x].fn \o SuffixOf(form) \o "()` on a `" \o enum \o "::" \o names[a].id \o "` value"
+\* try_unwrap_x{suffix}() on a value of variant a # x returns an error that prints:
+DocTryUnwrapText(enum, names, a, x, form) ==
+    "Attempt to call `" \o enum \o "::try_unwrap_" \o names[x].fn \o SuffixOf(form) \o "()` on a `" \o enum \o "::" \o names[a].id \o "` value"
+\* TryFrom<Enum> for the tuple type T fails with "Only <the variants convertible to T, in declaration order> can be
+\* converted to <T>" - the same text for the owned, shared and mutable forms (the target is named without `&`)
+RECURSIVE JoinStr(_, _)
+JoinStr(ss, sep) == IF Len(ss) = 0 THEN "" ELSE IF Len(ss) = 1 THEN ss[1] ELSE ss[1] \o sep \o JoinStr(Tail(ss), sep)
+Group(vs, T) == SelectSeq([i \in 1..Len(vs) |-> i], LAMBDA i : ~vs[i].ign /\ LiveTys(vs[i]) = T)
+TypeText(T) == IF Len(T) = 1 THEN T[1] ELSE "(" \o JoinStr(T, ", ") \o ")"
+DocTryIntoText(names, vs, T) ==
+    "Only " \o JoinStr([n \in 1..Len(Group(vs, T)) |-> names[Group(vs, T)[n]].id], ", ") \o " can be converted to " \o TypeText(T)
+
 \* laws of the contract
 Partition(vs) == \A a \in 1..Len(vs) : ~vs[a].ign =>
                     Cardinality({x \in Live(vs) : DocIs(vs, a, x)}) = 1
